@@ -89,7 +89,7 @@ func c01build() {
 
 func c01counts(env *core.Env) (matrix, random int) {
 	c01build()
-	return len(c01matrix), env.Pick(4000, 300000)
+	return len(c01matrix), env.Pick(12000, 400000)
 }
 
 var c01subjects = []string{"memc", "kvplain", "mem"}
